@@ -8,8 +8,8 @@
 EXTENDS SOOFamily, TraceTree, Json, IOUtils, TLCExt
 
 Traces == JsonDeserialize(IOEnv.TRACE_FILE)
-VARIABLES tid, l, T, f, hc, hw, cur, nexp, ph, asked, err, soft, done
-vars == <<tid, l, T, f, hc, hw, cur, nexp, ph, asked, err, soft, done>>
+VARIABLES tid, l, T, f, hc, hw, tv, cur, nexp, ph, asked, err, soft, done
+vars == <<tid, l, T, f, hc, hw, tv, cur, nexp, ph, asked, err, soft, done>>
 Tr == Traces[tid]
 PP == Tr.P
 Ev == Tr.ev
@@ -25,7 +25,7 @@ FreshCell(x) ==
     [] PP.algo = "StoSOO" -> x[2] = 0 /\ x[3] = 0 /\ x[4] = 0 /\ x[5] = 0
 
 Init == /\ tid \in 1 .. Len(Traces) /\ l = 1 /\ ph = "new" /\ err = "ok" /\ soft = "ok" /\ done = FALSE
-        /\ T = [n |-> 0] /\ f = <<>> /\ hc = <<>> /\ hw = <<>> /\ cur = <<0, NInf>> /\ nexp = 0 /\ asked = {}
+        /\ T = [n |-> 0] /\ f = <<>> /\ hc = <<>> /\ hw = <<>> /\ tv = <<>> /\ cur = <<0, NInf>> /\ nexp = 0 /\ asked = {}
 
 CallFail(e) == IF Has(e, "hang") THEN "call.hangs" ELSE IF Has(e, "exc") THEN "call.raises"
                ELSE IF e.k \in {"pull", "glp"} /\ e.ptok # 1 THEN "call.not-a-point"
@@ -117,13 +117,17 @@ RecvStep(e) ==
                                               /\ N(f1, c) <= PP.k) THEN "credit.stats" ELSE "ok"]
 
 \* C07: the recommendation
+HistEvaluated == {c \in DOMAIN tv : tv[c] # NInf}
+HistBest == {c \in HistEvaluated : \A d \in HistEvaluated : tv[d] <= tv[c]}
 GlpStep(e) ==
   LET cs == SeqRange(e.cands) IN
   IF e.fc # <<>> THEN "rec.mutates"
   ELSE IF PP.algo = "StoSOO" THEN (IF cs \cap RecStoSOO(T, f) = {} THEN "rec.not-best-mean-of-deepest-level" ELSE "ok")
   ELSE IF Evaluated(T, f) = {} THEN "ok"
   ELSE IF cs \cap Evaluated(T, f) = {} THEN "rec.never-evaluated"
-  ELSE IF cs \cap RecBestEvaluated(T, f) = {} THEN "rec.not-best" ELSE "ok"
+  ELSE IF cs \cap RecBestEvaluated(T, f) = {} THEN "rec.not-best"
+  \* ... and by the history itself (SOO, DOO: one reward per cell), should the recorded evidence have been adopted after a soft C04 clause
+  ELSE IF HistEvaluated # {} /\ cs \cap HistBest = {} THEN "rec.not-best-of-history" ELSE "ok"
 
 Cap == IF PP.algo = "StoSOO" THEN PP.k ELSE 1
 \* how often each cell has been handed out (C08: at most once / at most k times), independent of what was credited
@@ -139,41 +143,45 @@ Step ==
             /\ hc' = [c \in DOMAIN e.f |-> 0] /\ hw' = [c \in DOMAIN e.cells |-> e.cells[c].hw2]
             /\ err' = IF c0 # "ok" THEN c0
                       ELSE IF ~(Len(e.cells) = 1 /\ FreshCell(<<1>> \o e.f[1])) THEN "sweep.init" ELSE "ok"
+            /\ tv' = [c \in DOMAIN e.f |-> NInf]
             /\ UNCHANGED <<cur, nexp, asked>>
        [] e.k = "mk" ->
             LET r == MkStep(e) IN
             /\ T' = r.T /\ f' = r.f /\ cur' = r.cur /\ nexp' = r.nexp /\ err' = r.err /\ UNCHANGED <<ph, asked>>
             /\ hc' = (IF r.err = "ok" THEN hc \o [j \in DOMAIN e.new |-> 0] ELSE hc)
             /\ hw' = (IF r.err = "ok" THEN hw \o [j \in DOMAIN e.new |-> e.new[j].hw2] ELSE hw)
+            /\ tv' = (IF r.err = "ok" THEN tv \o [j \in DOMAIN e.new |-> NInf] ELSE tv)
        [] e.k = "pull" ->
             LET c0 == CallFail(e) IN
-            IF ph # "told" THEN err' = "protocol" /\ UNCHANGED <<T, f, hc, hw, cur, nexp, ph, asked>>
-            ELSE IF c0 # "ok" THEN err' = c0 /\ UNCHANGED <<T, f, hc, hw, cur, nexp, ph, asked>>
+            IF ph # "told" THEN err' = "protocol" /\ UNCHANGED <<T, f, hc, hw, tv, cur, nexp, ph, asked>>
+            ELSE IF c0 # "ok" THEN err' = c0 /\ UNCHANGED <<T, f, hc, hw, tv, cur, nexp, ph, asked>>
             ELSE LET r == PullStep(e) IN
-                 /\ f' = r.f /\ asked' = r.asked /\ ph' = "asked" /\ cur' = <<0, NInf>> /\ nexp' = 0 /\ UNCHANGED <<T, hw>>
+                 /\ f' = r.f /\ asked' = r.asked /\ ph' = "asked" /\ cur' = <<0, NInf>> /\ nexp' = 0 /\ UNCHANGED <<T, hw, tv>>
                  /\ soft' = (IF soft = "ok" /\ Has(r, "soft") THEN r.soft ELSE soft)
                  /\ err' = (IF TooOften(r) THEN "sweep.evaluated-too-often" ELSE r.err)
                  /\ hc' = HandOut(r)
        [] e.k = "recv" ->
             LET c0 == CallFail(e) IN
-            IF ph # "asked" THEN err' = "protocol" /\ UNCHANGED <<T, f, hc, hw, cur, nexp, ph, asked>>
-            ELSE IF c0 # "ok" THEN err' = c0 /\ UNCHANGED <<T, f, hc, hw, cur, nexp, ph, asked>>
+            IF ph # "asked" THEN err' = "protocol" /\ UNCHANGED <<T, f, hc, hw, tv, cur, nexp, ph, asked>>
+            ELSE IF c0 # "ok" THEN err' = c0 /\ UNCHANGED <<T, f, hc, hw, tv, cur, nexp, ph, asked>>
             ELSE LET r == RecvStep(e) IN
                  /\ f' = r.f /\ err' = "ok" /\ soft' = (IF soft = "ok" THEN r.err ELSE soft) /\ ph' = "told" /\ UNCHANGED <<T, hc, hw, cur, nexp, asked>>
+                 \* the history itself: the reward belongs to the cell the preceding pull handed out, whatever was recorded
+                 /\ tv' = (IF asked # {} /\ (CHOOSE c \in asked : TRUE) \in DOMAIN tv THEN [tv EXCEPT ![CHOOSE c \in asked : TRUE] = e.r] ELSE tv)
        [] e.k = "glp" ->
             LET c0 == CallFail(e) IN
             /\ err' = IF c0 # "ok" THEN c0 ELSE GlpStep(e)
-            /\ UNCHANGED <<T, f, hc, hw, cur, nexp, ph, asked>>
+            /\ UNCHANGED <<T, f, hc, hw, tv, cur, nexp, ph, asked>>
        [] e.k = "end" -> /\ err' = IF ~StructOK(PP, T) THEN "final.struct" ELSE "ok"
-                        /\ UNCHANGED <<T, f, hc, hw, cur, nexp, ph, asked>>
-       [] OTHER -> err' = "unknown-event" /\ UNCHANGED <<T, f, hc, hw, cur, nexp, ph, asked>>
+                        /\ UNCHANGED <<T, f, hc, hw, tv, cur, nexp, ph, asked>>
+       [] OTHER -> err' = "unknown-event" /\ UNCHANGED <<T, f, hc, hw, tv, cur, nexp, ph, asked>>
   /\ l' = l + 1 /\ UNCHANGED <<tid, done>>
   /\ (Ev[l].k = "recv" /\ ph = "asked" /\ CallFail(Ev[l]) = "ok") \/ (Ev[l].k = "pull" /\ ph = "told" /\ CallFail(Ev[l]) = "ok") \/ UNCHANGED soft
 
 Finish ==
   /\ ~done /\ (err # "ok" \/ l > Len(Ev))
   /\ PrintT(<<"VERDICT", Tr.id, IF err # "ok" THEN err ELSE soft, l - 1, IF T.n > 0 THEN T.n ELSE 0, IF err # "ok" THEN soft ELSE "ok">>)
-  /\ done' = TRUE /\ UNCHANGED <<tid, l, T, f, hc, hw, cur, nexp, ph, asked, err, soft>>
+  /\ done' = TRUE /\ UNCHANGED <<tid, l, T, f, hc, hw, tv, cur, nexp, ph, asked, err, soft>>
 
 Next == Step \/ Finish
 Spec == Init /\ [][Next]_vars
